@@ -14,3 +14,12 @@ func simYield(label string) {
 		y(label)
 	}
 }
+
+// SimSetDeleteParallelThreshold overrides the range size from which DeleteRange switches to
+// parallel deletion, so that a simulation can reach that path with small chains.
+// It returns a function restoring the previous value.
+func SimSetDeleteParallelThreshold(n uint64) (restore func()) {
+	old := deleteRangeParallelThreshold
+	deleteRangeParallelThreshold = n
+	return func() { deleteRangeParallelThreshold = old }
+}
